@@ -117,4 +117,49 @@ CHECKS = {
         note=_NOTE + " Not decided: gt/fp12 compressed form, eb, ep3/4/8 and higher extension fields, *_print. The compression "
              "bit is the parity of the STORED representation (y*R mod p in Montgomery builds): self-consistent, not SEC 1 interoperable (observation).",
         technique="TLC model checking of Enc/Dec definitions in tiny worlds + TLC trace validation of recorded codec calls"),
+    "C03": dict(
+        text="The affine group law (lib/Curve) is model-checked to be a group law for every nonsingular curve over F_5, F_7, F_11. "
+             "RELIC's addition and doubling formula programs (affine; complete projective for a=0, a=-3 and generic a incl. the mixed "
+             "and Z=1 shortcuts; Jacobian) are transcribed statement by statement with their exceptional-case dispatch and ep_neg, "
+             "ep_norm, ep_cmp (model/GroupLaw); TLC checks them against the affine law for every nonsingular curve over F_5..F_13, "
+             "every ordered pair of points and every representation. Every multiplication algorithm and recoding (w-NAF, regular "
+             "w-NAF, ladder, sliding window, single/double comb, fixed tables, interleaving, Shamir trick, JSF, many-point, GLV "
+             "basis/split/interleave) is transcribed as coded over Z_n (model/ScalarMul): each returns k*P for every k in -2n..3n "
+             "and 2^j(+-1), n <= 31, w 2..5. Every ep call executed by the driver is validated by TLC through the refinement "
+             "mapping from raw Montgomery coordinates + coordinate tag: abstract output = Curve-defined result, multiplication "
+             "outputs in normalised affine form, inputs unchanged, every alias pattern - on six curves of the pinned build "
+             "(thorough: affine and Jacobian default-coordinate builds, BLS12-381) and five tiny 8-bit-field worlds (GLV, a=-3, "
+             "generic a, cofactor 3, cofactor 2) with every ordered pair x {add, sub} and every k in [-2n,3n] x every routine "
+             "(sampled in quick).",
+        ref="§4 C03",
+        note=_NOTE,
+        technique="TLC model checking of transcribed formula programs and multiplication algorithms + TLC trace validation of recorded ep calls against the affine group law over BigNat"),
+    "C14": dict(
+        text="Explicit TLA+ transcriptions of FIPS 180-4 (SHA-224/256/384/512), RFC 7693 (BLAKE2s), RFC 2104, KDF2/MGF1, RFC 9380 "
+             "expand_message_xmd and FIPS 197 / SP 800-38A CBC / PKCS#7, with published vectors pinned by ASSUMEs and MCMdVectors. "
+             "TLC exhaustively checks the SHA-2 buffering machine (model/ShaStream, ShaCtx) against the standard padding for every "
+             "chunking at reduced block and length-field sizes with the compression function abstract (blocks handed to compression "
+             "= Pad(msg), length carry, overflow <=> Corrupted, Result idempotent, input after Result refused). Trace validation of "
+             "the real library: every message length 0..300/400, every 2-chunk split of short messages and scripted streaming "
+             "sessions with the context fields after every call, HMAC key lengths around the block size, KDF/MGF/XMD output "
+             "lengths incl. the limits, AES-128/192/256 CBC for plaintext lengths 0..64 and every crafted final-block padding - "
+             "each digest, MAC, key stream and ciphertext judged by TLC against the transcriptions.",
+        ref="§4 C14",
+        note=_NOTE + " Pure TLA+ evaluation (no accelerator) of hashes and AES with the CommunityModules Bitwise overrides.",
+        technique="TLC model checking of the streaming/padding machine + TLC trace validation of recorded md/bc calls against TLA+ transcriptions of the standards"),
+    "C08": dict(
+        text="Claimed in part (see note). (1) model/AllocFault: the try/finally temporaries discipline under an allocation failure "
+             "injected at every point - reported, every earlier temporary released once, nothing live afterwards - is model-checked, "
+             "and a leaky control is refuted. (2) Allocation-fault replay in the ALLOC=DYNAMIC build with --wrapped allocators: for "
+             "32 driven calls (bn, fp, ep, pairing, ECDSA) and every failure point k (all k up to a bound, then evenly spaced; "
+             "thorough: all k up to 3000) TLC (trace/SafeTrace) requires the model's outcome: error caught and sticky code set, no "
+             "allocation made during the call left live, and the same call repeated without fault reproduces the fault-free "
+             "result. (3) The case sets of the other checks (integer operands up to and beyond the configured precision, buffer "
+             "lengths size-1/size/size+1 with guard bytes, recodings with short lengths, counts n >= 0, codecs, generator "
+             "histories, error-macro programs, re-parameterisation) are harvested in collect mode and re-executed in the clang "
+             "ASan+UBSan variant of their configuration; a sanitizer report, crash or hang is an event no action explains.",
+        ref="§4 C08",
+        note=_NOTE + " 'No access outside its objects' is decided only as far as ASan/UBSan make the access an observable event: "
+             "over-reads inside a live object or frame and uninitialised reads are not observable here.",
+        technique="TLC model checking of the allocation-failure discipline + TLC trace validation of allocation-fault replays and of sanitizer-build executions (crash/timeout events)"),
 }
